@@ -7,6 +7,15 @@ CHECKS = {
  'C01': dict(engine='S', tech=S_TECH, text='bounded symbolic verification: for every configuration of an enumerated lattice the prover and verifier source is executed with all witness bits, values, promises, blindings, nonces, challenges and weights symbolic; z3 proves every coefficient of the verifier\'s final linear form identically zero',
              note='A1 random-oracle, A2 algebraic group model, A4 reals for F_l with replay, A5 model crates implement documented contracts; configurations (n,m,cap,x) enumerated, n*m<=64 quick / <=256 thorough; bit-decomposition link lemma is Engine M (C06)', ref='§5 C01'),
 }
+CHECKS['C02'] = dict(engine='S', tech=S_TECH + '; oracle = the Bulletproofs+ relation written from the paper (smt/spec.py)',
+    text='bounded symbolic verification against an independent specification: verify_batch is executed on a fully adversarial proof (free points, free response scalars); z3 proves for every basis element that the coefficient the implementation gives it equals weight x the coefficient of the published relation, and that the weight cannot vanish; malformed shapes are shown to be refused before the comparison',
+    note='A1, A2, A3, A4, A5; configurations enumerated; the paper\'s extraction theorem is outside the claim', ref='§5 C02')
+CHECKS['C08'] = dict(engine='S', tech=S_TECH + '; two-copy injectivity queries on the recorded hash inputs',
+    text='bounded symbolic verification: on adversarial batches z3 proves the verifier\'s residual equals sum_i w_i x (paper relation of member i) with pairwise distinct weight variables, each weight non-zero on the path, that the hash input of the weights determines every response scalar of every member (so any change re-randomises all weights under A1), and that equal-and-opposite defects leave the non-zero polynomial (w_i-w_j)*delta',
+    note='A1 (weights are oracle outputs: "unpredictable" = derived from the responses), A2, A3, A4, A5; batch sizes k<=3 quick / 5 thorough', ref='§5 C08')
+CHECKS['C03'] = dict(engine='S', tech=S_TECH,
+    text='bounded symbolic verification of batch verification: honest batches in every order (k<=3) and at sizes across the internal chunk limit verify with exactly k results and result i term-equal to member i\'s mask; in adversarial batches z3 shows the coefficient of every member\'s own proof point cannot vanish (a member that is never examined has coefficient 0); one invalid member at any position leaves a non-zero polynomial; malformed batch shapes are refused',
+    note='A1, A2, A3, A4, A5; batch size k and positions are enumerated (k up to 257 quick / 513 thorough), contents symbolic', ref='§5 C03')
 NA = {
 }
 def main():
